@@ -42,6 +42,7 @@ def funcByName : String → Option FuncSig
   | "addlit" => some (.simple [(.field, .int), (.literal, .int)] [] .int 7)
   | "b2i" => some (.simple [(.field, .bool)] [] .int 8)
   | "blen" => some (.simple [(.field, .array .bool)] [] .int 9)
+  | "len2" => some (.simple [(.field, .bytes)] [(.both, .bytes [])] .int 10)
   | "concat" => some .concat
   | "ctxfn" => some .ctxCounter
   | _ => none
@@ -131,7 +132,7 @@ def step (st : St) : List String → Option (St × String)
     let ls ← parseItems parseListDecl ',' lists
     let d ← parseNat? depth
     let star : Option Nat ← (if star == "-" then some none else (parseNat? star).map some)
-    let sch : Scheme := { fields := fs, funcs := fn, lists := ls, nilNe := nilne == "1" }
+    let sch : Scheme := { fields := fs, funcs := fn, lists := ls, nilNe := nilne.startsWith "1" }
     let st' : St := { env := { scheme := sch, st := { maxDepth := d, starLimit := star } },
                       ctx := { values := List.replicate fs.length none,
                                lists := ls.map fun (_, k) => { kind := k, sets := [] } } }
